@@ -12,7 +12,7 @@ from harness import tlc
 BASES = [datetime.date(2020, 2, 27), datetime.date(2019, 12, 29), datetime.date(2021, 2, 26),
          datetime.date(2020, 3, 30), datetime.date(2023, 12, 30), datetime.date(1999, 12, 30)]
 SPACINGS = [' - ', '-', '  -  ']
-NBAD = 6
+NBAD = 10
 
 CFG = """SPECIFICATION Spec
 CONSTANTS M = %d
@@ -39,7 +39,11 @@ def render(entry, base, sp):
   if k == 1:
     return fmt(base, a) + sp + fmt(base, b)
   return {1: 'not a date', 2: '%04d/13/01' % base.year, 3: '2021/02/30',
-          4: fmt(base, 0) + sp + fmt(base, 1) + sp + fmt(base, 2), 5: '', 6: fmt(base, 0) + ' -'}[a]
+          4: fmt(base, 0) + sp + fmt(base, 1) + sp + fmt(base, 2), 5: '', 6: fmt(base, 0) + ' -',
+          # more than one dash, but what follows the first one still reads as a date to a lenient parser
+          7: fmt(base, 0) + sp + fmt(base, 1) + sp + '12', 8: fmt(base, 0) + sp + fmt(base, 1) + ' -',
+          9: fmt(base, 0) + '-' + fmt(base, 1) + '-2020',
+          10: fmt(base, 0) + sp + (base + datetime.timedelta(days=1)).isoformat()}[a]
 
 
 def run_case(utils, pd, case, base, sp):
